@@ -41,10 +41,6 @@ pub struct Class {
     class_type: ClassType,
     flags: ClassFlags,
     path_str: Arc<PathBuf>,
-    /// Only a class of the module's top level is one of the module's exports: a class that is
-    /// declared inside a function or block belongs to that scope and is created every time
-    /// control reaches it.
-    at_module_level: bool,
 }
 
 impl Compile for Class {
@@ -75,18 +71,16 @@ impl Compile for Class {
             arguments.push(dependency.name().to_owned());
         }
 
-        let bind = if self.at_module_level {
-            instruction!(export_special name id)
-        } else {
-            instruction!(store_fast name)
-        };
-
+        // `export_special` binds the class in the scope that declares it and registers its
+        // constructor with the module, which is where `Self(..)` finds it. A class that is
+        // declared inside a function or a loop body is declared again whenever control
+        // reaches it: the interpreter lets the same constructor be registered again.
         Ok(vec![
             CompiledItem::Instruction {
                 id: MAKE_FUNCTION,
                 arguments: arguments.into(),
             },
-            bind,
+            instruction!(export_special name id),
         ])
     }
 }
@@ -392,7 +386,6 @@ impl Parser {
             flags,
             class_type,
             path_str: input.user_data().bytecode_path(),
-            at_module_level: input.user_data().is_at_module_level(),
         };
 
         Ok(result)
